@@ -49,6 +49,9 @@ type c20Meta struct {
 	Cycle    bool                `json:"cross_file_cycle"`
 	// CrossPkgCombo / CrossPkgAnyOf: an allOf/anyOf (resp. anyOf) branch $ref crosses packages
 	CrossPkgCombo bool `json:"crosspackage_combinator_ref"`
+	// RefCompositions: number of allOf/anyOf nodes with a $ref branch in the world's documents (two or more: a
+	// merged target may be reached by several compositions - known finding KF-C20-5)
+	RefCompositions int `json:"ref_compositions"`
 	CrossPkgAnyOf bool `json:"crosspackage_anyof_ref"`
 	// Clash3: three structurally different definitions of three files share one Go name in
 	// one package (Clash, Clash_1, Clash_2 by processing order): U cannot apply (naming is
@@ -108,7 +111,7 @@ func markersOf(f *SFile) []string {
 }
 
 func buildC20Meta(w *World) c20Meta {
-	m := c20Meta{Spell: map[string][]string{}, MinSized: w.Opts.MinSized, Pkgs: map[string]string{}, Cycle: hasCrossFileCycle(w)}
+	m := c20Meta{Spell: map[string][]string{}, MinSized: w.Opts.MinSized, Pkgs: map[string]string{}, Cycle: hasCrossFileCycle(w), RefCompositions: countRefCompositions(w)}
 	for _, f := range w.Files {
 		out, pkg := expectedRouting(w, f)
 		m.Files = append(m.Files, c20File{Tag: f.Tag, ID: f.ID, OutAbs: out, PkgPath: pkg, Markers: markersOf(f), Abs: filepath.Join(w.Root, f.Rel())})
@@ -139,6 +142,40 @@ func buildC20Meta(w *World) c20Meta {
 }
 
 // hasAnyOfRefBranch: does any document contain an anyOf with a $ref branch?
+// countRefCompositions: allOf/anyOf nodes that have a $ref branch.
+func countRefCompositions(w *World) int {
+	n := 0
+	var walk func(v any)
+	walk = func(v any) {
+		switch x := v.(type) {
+		case Obj:
+			for _, kv := range x {
+				if kv.K == "anyOf" || kv.K == "allOf" {
+					if a, ok := kv.V.([]any); ok {
+						for _, b := range a {
+							if bo, ok := b.(Obj); ok {
+								if _, isRef := bo.Get("$ref"); isRef {
+									n++
+									break
+								}
+							}
+						}
+					}
+				}
+				walk(kv.V)
+			}
+		case []any:
+			for _, e := range x {
+				walk(e)
+			}
+		}
+	}
+	for _, f := range w.Files {
+		walk(f.Doc)
+	}
+	return n
+}
+
 func hasAnyOfRefBranch(w *World) bool {
 	var walk func(v any) bool
 	walk = func(v any) bool {
@@ -296,6 +333,7 @@ func (p c20) Eval(c *Case, outs []*Out) []Discrepancy {
 	var meta c20Meta
 	_ = json.Unmarshal(c.Meta, &meta)
 	crossPkgComboWorld = meta.CrossPkgCombo
+	multiCompositionWorld = meta.RefCompositions >= 2
 	var ds []Discrepancy
 	nf := len(meta.Files)
 	if len(outs) < nf {
@@ -420,10 +458,17 @@ func (p c20) Eval(c *Case, outs []*Out) []Discrepancy {
 						if dupSuffix.MatchString(extra[0]) {
 							w = "extra-decl:dup-suffix"
 						}
+						if w == "extra-decl" {
+							w += derivedOnly(extra)
+						}
 						add("U", w, fmt.Sprintf("output %q declares %s that no singleton run declares", path, fmtKeys(extra, 6)))
 					}
 					if len(missing) > 0 {
-						add("U", "missing-decl"+unmarshalerOnly(missing), fmt.Sprintf("output %q lacks %s declared by the singleton runs", path, fmtKeys(missing, 6)))
+						mw := unmarshalerOnly(missing)
+						if mw == "" {
+							mw = derivedOnly(missing)
+						}
+						add("U", "missing-decl"+mw, fmt.Sprintf("output %q lacks %s declared by the singleton runs", path, fmtKeys(missing, 6)))
 					}
 					if len(diff) > 0 {
 						add("U", "different-decl"+diffClass(e[diff[0]], g.Decls[diff[0]], g, nil), fmt.Sprintf("output %q: %s differ from the singleton runs, e.g. %s: %s", path, fmtKeys(diff, 6), diff[0], lineDiff(e[diff[0]], g.Decls[diff[0]])))
@@ -613,10 +658,46 @@ func diffClass(a, b string, fa, fb *GoFile) string {
 				return ":dangling-in-progress-type"
 			}
 		}
+		// ... and if every name that differs is a DERIVED one (named after the property path that reached an inline or
+		// per-branch type first), say so
+		ia, ib := typeIdent.FindAllString(a, -1), typeIdent.FindAllString(b, -1)
+		derived := len(ia) == len(ib)
+		for i := 0; derived && i < len(ia); i++ {
+			if ia[i] != ib[i] && !(derivedName.MatchString(ia[i]) && derivedName.MatchString(ib[i])) {
+				derived = false
+			}
+		}
+		if derived && multiCompositionWorld {
+			return ":type-name-only:derived-type-name:multi-composition"
+		}
 		return ":type-name-only"
 	}
 	return ""
 }
+
+// derivedName: a type name that contains a property-derived segment (T2P3, T0R12: the generator's property names
+// are t<file>p<n> / t<file>r<n>) - the name of an inline or per-branch type, built from the path that reached it.
+var derivedName = regexp.MustCompile(`T[0-9]+[PR][0-9]+`)
+
+var declTypeName = regexp.MustCompile(`^(?:type |func \(\*?)(\w+)`)
+
+// derivedOnly: all listed declarations belong to types with derived names, in a world where a merged target can be
+// reached by several compositions.
+func derivedOnly(keys []string) string {
+	if !multiCompositionWorld {
+		return ""
+	}
+	for _, k := range keys {
+		m := declTypeName.FindStringSubmatch(k)
+		if m == nil || !derivedName.MatchString(m[1]) {
+			return ""
+		}
+	}
+	return ":derived-type-name:multi-composition"
+}
+
+// multiCompositionWorld is set by Eval for the case being judged.
+var multiCompositionWorld bool
 
 var typeIdent = regexp.MustCompile(`\b[A-Z][A-Za-z0-9_]*\b`)
 
